@@ -213,11 +213,14 @@ theorem eqKey_plain (key : Bytes) : splice (eq (.raw "key") (.str key)) = [eq (.
     mentionsDate (eq (.raw "key") (.str key)) = false := ⟨splice_logical _ _ (by decide), rfl⟩
 
 /-- **`SeriesPlanner.Process`** over a selector of the fragment -/
-theorem planSeries_confined (cfg : Cfg) (c : Ctx) (h : LokiCfg cfg c) (q : LogQuery) :
-    confined cfg (winOf c) (planSeries c q) = true := by
-  have hfp := fpWith_inv cfg c h 0 (by decide) q
-  rw [winK_zero] at hfp
-  have g : GoodM cfg (winOf c) (planSeries c q) := by
+theorem fpSelWith_inv (cfg : Cfg) (c : Ctx) (h : LokiCfg cfg c) (ms : List Matcher) :
+    IM cfg (winOf c) [] ((fpSelWith c ms).2.withs ++ [fpSelWith c ms]) :=
+  ⟨(streamSelect_confined cfg c h [] ms).1, ⟨(by intro hg; cases hg), trivial⟩⟩
+
+theorem planSeries_confined (cfg : Cfg) (c : Ctx) (h : LokiCfg cfg c) (ms : List Matcher) :
+    confined cfg (winOf c) (planSeries c ms) = true := by
+  have hfp := fpSelWith_inv cfg c h ms
+  have g : GoodM cfg (winOf c) (planSeries c ms) := by
     unfold planSeries
     dsimp only
     refine ⟨by rw [withs_setLimit]; exact with_inv _ _ _ (bodyConfined_Mono cfg _) (yieldC_Mono cfg) _ _ (by
@@ -236,18 +239,17 @@ theorem valuesBase_body (cfg : Cfg) (c : Ctx) (h : LokiCfg cfg c) (key : Bytes) 
   idxLoki_body cfg c c.ginTable h.gin _ _ (eqKey_plain key) (getTypes_plain c) (Or.inr (getTypes_isTypeFilter c)) _ rfl rfl rfl
 
 /-- **`ValuesPlanner.Process`**, with or without a selector -/
-theorem planValues_confined (cfg : Cfg) (c : Ctx) (h : LokiCfg cfg c) (key : Bytes) (q : Option LogQuery) :
-    confined cfg (winOf c) (LogQL.planValues c key q) = true := by
-  have g : GoodM cfg (winOf c) (LogQL.planValues c key q) := by
+theorem planValues_confined (cfg : Cfg) (c : Ctx) (h : LokiCfg cfg c) (key : Bytes) (ms : Option (List Matcher)) :
+    confined cfg (winOf c) (LogQL.planValues c key ms) = true := by
+  have g : GoodM cfg (winOf c) (LogQL.planValues c key ms) := by
     unfold LogQL.planValues
-    cases q with
+    cases ms with
     | none =>
       refine ⟨by rw [withs_setLimit]; trivial, fun ok => ?_⟩
       rw [bodyConfined_setLimit]
       exact bodyConfined_mono cfg _ [] ok (by intro x hx; cases hx) _ (valuesBase_body cfg c h key)
-    | some q =>
-      have hfp := fpWith_inv cfg c h 0 (by decide) q
-      rw [winK_zero] at hfp
+    | some ms =>
+      have hfp := fpSelWith_inv cfg c h ms
       refine ⟨by rw [withs_setLimit, withs_andWhere]; exact with_inv _ _ _ (bodyConfined_Mono cfg _) (yieldC_Mono cfg) _ _ (by
         intro e he; simp only [List.mem_singleton] at he; subst he; exact hfp), fun ok => ?_⟩
       rw [bodyConfined_setLimit]
